@@ -37,6 +37,7 @@ pub fn collections(engine: &Engine) -> Collections {
 pub struct LiveTask {
     pub tid: String,
     pub nid: String,
+    pub name: String,
     pub kind: String,
     pub uses: String,
     pub key: String,
@@ -70,6 +71,7 @@ fn live_task(t: &Arc<Task>) -> LiveTask {
     LiveTask {
         tid: t.id.clone(),
         nid: t.node().id().to_string(),
+        name: t.node().name(),
         kind: t.node().kind().to_string(),
         uses: t.node().uses(),
         key: t.node().key(),
@@ -129,10 +131,10 @@ pub fn evict(engine: &Engine, pid: &str) {
     engine.runtime().cache().verif_uncache(pid);
 }
 
-/// a task state write: (pid, tid, node kind, node id, uses, old state, new state, pure)
+/// a task state write: (pid, tid, node kind, node id, node name, uses, old state, new state, pure)
 /// `pure` is true for writes that bypass the lifecycle bookkeeping (used when a task is
 /// re-created from its stored row)
-pub type StateHook = dyn Fn(&str, &str, &str, &str, &str, &str, &str, bool) + Send + Sync;
+pub type StateHook = dyn Fn(&str, &str, &str, &str, &str, &str, &str, &str, bool) + Send + Sync;
 
 static STATE_HOOK: RwLock<Option<Arc<StateHook>>> = RwLock::new(None);
 
@@ -148,6 +150,7 @@ pub(crate) fn on_state(task: &Task, old: &crate::TaskState, new: &crate::TaskSta
             &task.id,
             &task.node().kind().to_string(),
             task.node().id(),
+            &task.node().name(),
             &task.node().uses(),
             &old.to_string(),
             &new.to_string(),
